@@ -163,6 +163,25 @@ CORE_VARIANTS = {"core::option::Option": ["None", "Some"], "core::result::Result
                  "core::ops::control_flow::ControlFlow": ["Continue", "Break"]}
 
 
+def shape_bytes(ty, b):
+    """value of a constant of array-of-integers type from its memory image (little-endian target)"""
+    ty = ty.strip()
+    if ty in INT_BITS:
+        n = INT_BITS[ty] // 8
+        return int.from_bytes(b[:n], "little", signed=ty.startswith("i")) if len(b) >= n else None
+    m = re.match(r"^\[(.*); (\d+)\]$", ty)
+    if m:
+        n = int(m.group(2))
+        if n == 0:
+            return Tup([])
+        if len(b) % n:
+            return None
+        k = len(b) // n
+        items = [shape_bytes(m.group(1), b[i * k:(i + 1) * k]) for i in range(n)]
+        return None if any(x is None for x in items) else Tup(items)
+    return None
+
+
 def ty_head(ty):
     if not ty:
         return None
@@ -432,7 +451,8 @@ class Machine:
                 if "int" in c:
                     return int(c["int"])
                 if "bytes_hex" in c:
-                    return Tup(list(bytes.fromhex(c["bytes_hex"])))
+                    v = shape_bytes(c.get("ty") or "", bytes.fromhex(c["bytes_hex"]))
+                    return v if v is not None else Tup(list(bytes.fromhex(c["bytes_hex"])))
         if "promoted" in op:
             pb = self.F.promoted.get((op.get("uneval_def"), op["promoted"]))
             if pb is not None:
